@@ -1,5 +1,42 @@
-(* Wire entry points of the C02 model (stub until the model is built). *)
-From Coq Require Import ZArith List.
-From SG Require Import Base.Sx.
+(* Wire entry points of the C02 model (standard combination on uniform trapezoidal grids). *)
+From Coq Require Import ZArith List Bool QArith Qcanon.
+From SG Require Import Base.Sx Base.QcUtil Model.CombiScheme Model.StdCombi Proofs.SchemeStd Proofs.StdCombiSum.
+Import ListNotations.
 Open Scope Z_scope.
-Definition entry_C02 (sub : Z) (a : sx) : sx := sx_err 0.
+
+Definition get_fun (a b : list Qc) (s : sx) : option (list Qc -> Qc) :=
+  match s with
+  | Lv [Zv 0; al; be] =>
+    match get_LQc al, get_LQc be with Some al, Some be => Some (fun_poly al be) | _, _ => None end
+  | Lv [Zv 1; j; i] =>
+    match get_LZ j, get_LZ i with Some j, Some i => Some (fun_hat a b j i) | _, _ => None end
+  | Lv [Zv 2; p] =>
+    match get_LQc p with Some p => Some (fun_unit p) | None => None end
+  | _ => None
+  end.
+
+(* sub 0: (boundary a b lmin lmax fspec evalpoints) ->
+     (std_eq_adaptive scheme ((numpoints points weights) per component) values integral) *)
+Definition entry_C02 (sub : Z) (arg : sx) : sx :=
+  match sub, arg with
+  | 0, Lv [Zv bd; a; b; Zv lmin; Zv lmax; fs; pts] =>
+    match get_LQc a, get_LQc b, get_LLQc pts with
+    | Some a, Some b, Some pts =>
+      match get_fun a b fs with
+      | Some f =>
+        let boundary := negb (bd =? 0) in
+        let d := length a in
+        let cs := combi_scheme_standard d lmin lmax in
+        Lv [ sx_bool (std_perm_check d lmin lmax);
+             Lv (map (fun kv => Lv [of_LZ (fst kv); Zv (snd kv)]) cs);
+             Lv (map (fun kv => Lv [of_LZ (comp_num_points boundary (fst kv));
+                                    of_LLQc (comp_points boundary a b (fst kv));
+                                    of_LQc (comp_weights boundary a b (fst kv))]) cs);
+             of_LQc (map (combi_interp boundary a b cs f) pts);
+             of_Qc (combi_integral boundary a b cs f) ]
+      | None => sx_err 2
+      end
+    | _, _, _ => sx_err 1
+    end
+  | _, _ => sx_err 0
+  end.
